@@ -17,6 +17,8 @@ def b01 (b : Bool) : String := if b then "1" else "0"
 def allocThrows (bytes : Nat) : Bool := bytes + 144 > 2 ^ 47
 
 structure DSt where
+  /-- extracted flag `ctorRejectsOversized` (second driver argument) -/
+  rej : Bool := false
   ucap : Nat := 0
   umax : Nat := 0
   tb : WB Nat := { initCap := 1, cap := 1, mask := 0, store := fun _ => 0, rpos := 0, wpos := 0, shrinkReq := false }
@@ -33,7 +35,9 @@ def exec (s : DSt) (ws : List String) : Option (DSt × String × String) :=
   | ["np2", w, n] => some (s, toString (nextPow2W (nat! w) (nat! n)), "")
   | ["np2s", w, n] => some (s, toString (nextPow2S (nat! w) (int! n)), "")
   | ["bctor", w, req, pct] =>
-    let c := boundedCtor (nat! w) (nat! req) (nat! pct)
+    match boundedCtorR s.rej (nat! w) (nat! req) (nat! pct) with
+    | none => some (s, "throw", "")
+    | some c =>
     if allocThrows c.allocBytes then some (s, "throw", "")
     else
       let exact := decide (c.capacity * nat! pct < 2 ^ 53)
@@ -45,7 +49,7 @@ def exec (s : DSt) (ws : List String) : Option (DSt × String × String) :=
   | ["upw", n] =>
     let n := nat! n
     if n ≤ s.ucap then some (s, s!"grant cap={s.ucap}", "")
-    else match handleFull s.ucap n s.umax with
+    else match handleFullR s.rej s.ucap n s.umax with
       | .alloc c => some ({ s with ucap := c }, s!"grant cap={c}", "")
       | .null => some (s, s!"null cap={s.ucap}", "")
       | .throw => some (s, s!"throw cap={s.ucap}", "")
@@ -75,10 +79,10 @@ def splitBatch (obs : String) : String × String :=
   (" ".intercalate (ws.filter (fun w => !w.startsWith "batch=")),
    " ".intercalate (ws.filter (fun w => w.startsWith "batch=")))
 
-def runTrace : IO UInt32 := do
+def runTrace (rej : Bool) : IO UInt32 := do
   let stdin ← IO.getStdin
   let lines ← Drv.readLines stdin
-  let mut s : DSt := {}
+  let mut s : DSt := { rej := rej }
   let mut n := 0
   let mut mism := 0
   let mut pdiff := 0
@@ -116,7 +120,8 @@ def runTrace : IO UInt32 := do
   return (if mism == 0 then 0 else 1)
 
 def main : List String → IO UInt32
-  | ["trace"] => runTrace
-  | _ => do IO.println "usage: driver mathutil trace"; return 2
+  | ["trace"] => runTrace false
+  | ["trace", r] => runTrace (r == "1")
+  | _ => do IO.println "usage: driver mathutil trace [ctorRejectsOversized: 0|1]"; return 2
 
 end Drv.MathUtil
